@@ -1,7 +1,7 @@
 """C16 - numerical kernels meet their contracts (decided clauses: GL tables and panel driver, rotation algebra, Simpson)."""
 from .. import project
 from ..framework import Report, where
-from ..rules import tablemath, panels, symalg, simpson, qng
+from ..rules import tablemath, panels, symalg, simpson, qng, stale
 from ..rules.symalg import Poly
 
 
@@ -9,7 +9,7 @@ def run(tier, seed):
     rep = Report('C16')
     prog = project.load(files=[project.repo_unit('bxdecay0/dgmlt1.cc'), project.repo_unit('bxdecay0/dgmlt2.cc'),
                                project.repo_unit('bxdecay0/utils.cc'), project.repo_unit('bxdecay0/tsimpr.cc'),
-                               project.repo_unit('bxdecay0/gauss.cc')])
+                               project.repo_unit('bxdecay0/gauss.cc'), project.repo_unit('bxdecay0/divdif.cc')])
     rep.analysed['units'] = sorted(project.relpath(u) for u in prog.units)
     tablemath.check_tables(rep, prog)
     rep.floor('TABLE-MATH.moments', sum(1 for i in rep.instances if i.rule == 'TABLE-MATH.moments'), 56)
@@ -53,6 +53,8 @@ def run(tier, seed):
         pass
     simpson.check(rep, prog)
     qng.check(rep, prog)
+    nst = stale.check(rep, prog, 'bxdecay0::decay0_divdif')
+    rep.floor('STALE.derived', nst, 2)
     rep.assumptions += [
         'decides: Gauss-Legendre table exactness (moment identities, exact rationals), table/sibling agreement, the panel driver (every node '
         'summed once with its own weight, affine node map, scale), rotate_zyz algebra, Simpson weights and exactness on cubics as polynomial identities',
